@@ -103,7 +103,7 @@ fn gen_c12(tier: &str, r: &Rng, o: &mut Out<'_>) {
     }
     // value types: Pid::new / TryFrom<u16>, ContinuityCounter::new (every argument value)
     for v in 0..=65535u32 {
-        if tier != "thorough" && v > 0x2100 && v % 251 != 0 && v < 65500 { continue; }
+        if tier != "thorough" && v > 0x2100 && v % 251 != 0 && v < 65500 && v.count_ones() > 2 { continue; }
         o.d(&format!("pidtry {}", v));
         o.d(&format!("pidnew {}", v));
     }
@@ -323,6 +323,13 @@ fn gen_c15(tier: &str, r: &Rng, o: &mut Out<'_>) {
     let edge: Vec<u64> = vec![0, 1, 2, (1 << 32) - 1, 1 << 32, (1 << 32) + 1, (1 << 33) - 2, (1 << 33) - 1, 1 << 33, (1 << 33) + 1,
         (1 << 34) - 1, 1 << 34, (1 << 34) + 1, 1 << 63, u64::MAX - 1, u64::MAX];
     for &v in edge.iter() { o.d(&format!("tsu64 {}", v)); }
+    // every single-bit value and sparse high-bit values (a range check done on a truncated or
+    // partially shifted copy of the argument is only exposed by arguments whose excess bits are ALL
+    // in the part it lost: seeded change C15-r9m2)
+    for k in 0..64u32 {
+        let one = 1u64 << k;
+        for v in [one, one | 1, one | 1234, one.wrapping_sub(1), !one, one | (1u64 << 63)] { o.d(&format!("tsu64 {}", v)); }
+    }
     let n = if thorough { 200_000 } else { 5_000 };
     for _ in 0..n {
         let v = match r.below(4) { 0 => r.next() & ((1 << 33) - 1), 1 => r.next() & ((1 << 35) - 1), 2 => (1u64 << 33).wrapping_add(r.below(64)).wrapping_sub(32), _ => r.next() };
@@ -367,7 +374,20 @@ fn gen_c15(tier: &str, r: &Rng, o: &mut Out<'_>) {
     for &b in [0u64, 1, (1 << 33) - 1, 1 << 33, (1 << 33) + 1, u64::MAX, 1 << 40].iter() {
         for &e in [0u64, 1, 299, 300, 511, 512, 513, 65535].iter() { o.d(&format!("cref {} {}", b, e)); }
     }
+    for k in 0..64u32 {
+        let one = 1u64 << k;
+        for b in [one, one | 1, one | 1234, one | (1u64 << 63), one | (1u64 << 50), one.wrapping_sub(1)] {
+            for e in [0u64, 511, 512] { o.d(&format!("cref {} {}", b, e)); }
+        }
+    }
+    for k in 0..16u32 {
+        for b in [0u64, m33, 1 << 33, 1 << 49] { o.d(&format!("cref {} {}", b, 1u64 << k)); o.d(&format!("cref {} {}", b, (1u64 << k) | 1)); }
+    }
     for _ in 0..n {
+        // sparse arguments: a few random bits anywhere in the 64 / 16 bits
+        let sb = (1u64 << r.below(64)) | (if r.chance(1, 2) { 1u64 << r.below(64) } else { 0 });
+        let se = (1u64 << r.below(16)) | (if r.chance(1, 2) { 1u64 << r.below(16) } else { 0 });
+        if r.chance(1, 4) { o.d(&format!("cref {} {}", sb, if r.chance(1, 2) { se } else { r.below(512) })); }
         let b = if r.chance(4, 5) { r.next() & m33 } else { r.next() };
         let e = if r.chance(4, 5) { r.below(512) } else { r.below(65536) };
         o.d(&format!("cref {} {}", b, e));
@@ -964,7 +984,11 @@ fn sym_packet(r: &Rng, sym: usize, cc_prev: &mut Option<u8>) -> Vec<u8> {
         let pl: Vec<u8> = match kind {
             0 => { let (b, _) = pes_bytes(r, &rand_pes(r, 150)); b[..b.len().min(184)].to_vec() }
             1 => { let mut v = r.bytes(1 + r.below(184) as usize); if v.len() >= 3 { v[2] = 2; } v }
-            _ => r.bytes(1 + r.below(5) as usize),
+            _ => {
+                // very short payloads: arbitrary bytes, or a valid PES packet cut after 1..=8 bytes
+                // (a start code with less than the 6-byte fixed header behind it: C08-r9m2)
+                if r.chance(1, 2) { r.bytes(1 + r.below(5) as usize) } else { let (b, _) = pes_bytes(r, &rand_pes(r, 20)); b[..(1 + r.below(8) as usize).min(b.len())].to_vec() }
+            }
         };
         mk_pkt(r, 0x101, pusi, cc, &pl, false)
     } else {
@@ -994,6 +1018,28 @@ fn gen_pesf(tier: &str, r: &Rng, o: &mut Out<'_>, depth_quick: usize) {
             let mut pkts = vec![];
             for &sym in pre.iter().chain(s.iter()) { pkts.push(sym_packet(r, sym, &mut ccp)); }
             o.d(&format!("pesf {}", join(&pkts)));
+        }
+    }
+    // a unit start whose payload is a valid PES packet cut after L bytes, for every L up to the end of
+    // the optional header (start-code prefixes, start code without the fixed header, header cut inside
+    // each optional field), from each state, followed by a continuation and by a fresh unit start
+    for pre in prefixes.iter() {
+        for l in 1..=40usize {
+            for variant in 0..3 {
+                let mut ccp = None;
+                let mut pkts = vec![];
+                for &sym in pre.iter() { pkts.push(sym_packet(r, sym, &mut ccp)); }
+                let (b, _) = pes_bytes(r, &rand_pes(r, 60));
+                let cut = b[..l.min(b.len())].to_vec();
+                let mut next_cc = |ccp: &mut Option<u8>| { let c = match *ccp { Some(c) => (c + 1) & 15, None => r.byte() & 15 }; *ccp = Some(c); c };
+                let c = next_cc(&mut ccp);
+                pkts.push(mk_pkt(r, 0x101, true, c, &cut, false));
+                if variant != 1 { let c = next_cc(&mut ccp); pkts.push(mk_pkt(r, 0x101, false, c, &r.bytes(1 + r.below(184) as usize), false)); }
+                if variant != 2 { let c = next_cc(&mut ccp); let (b2, _) = pes_bytes(r, &rand_pes(r, 100)); pkts.push(mk_pkt(r, 0x101, true, c, &b2[..b2.len().min(184)], false)); }
+                let c = next_cc(&mut ccp);
+                pkts.push(mk_pkt(r, 0x101, false, c, &r.bytes(8), false));
+                o.d(&format!("pesf {}", join(&pkts)));
+            }
         }
     }
     // all 16x16 counter pairs x payload flag x unit start, from each state
@@ -2053,6 +2099,10 @@ fn gen_c01(tier: &str, r: &Rng, o: &mut Out<'_>) {
         let pk: Vec<Vec<u8>> = (0..(1 + r.below(6))).map(|_| { let mut p = rand_packet(r); p[0] = 0x47; p[1] = (p[1] & 0x60) | 1; p[2] = 0; if r.chance(2, 3) { p[3] = (p[3] & 0x0f) | 0x10; } p }).collect();
         o.h(&format!("sec {} {}", if r.chance(1, 2) { "s" } else { "c" }, join(&pk)));
         o.h(&format!("pesf {}", join(&pk)));
+    }
+    // valid PES packets cut after every length up to the end of a long optional header
+    for l in 0..=70usize {
+        for _ in 0..3 { let (b, _) = pes_bytes(r, &rand_pes(r, 80)); o.h(&format!("pes {}", hex(&b[..l.min(b.len())]))); }
     }
     o.meta("plans", "well-formed, hostile-PSI, dispatcher and random streams, mutated (bit flips, length-field edits, drops, duplicates, swaps), pushed whole / packet-aligned / at arbitrary byte offsets; both builds (cfg(fuzzing) bypasses the CRC); every callback touches every accessor and Debug impl");
 }
